@@ -14,6 +14,7 @@ EXPLANATION = (
     "such path is a violation (today: Store::store_event -> EventStore::store_event -> MmapAppend::resize -> remap, a "
     "recorded known finding). Whether the kernel actually moves a given mapping is not decided.")
 EXPLANATION += " Also decided (3): bytes handed out cannot change under a live reference through pocket-db's own code: only EventStore::store_event reaches the appender, the appender writes at and beyond the end marker before publishing it, and no function of pocket-db writes to the file through a file handle or obtains a mutable pointer into the map."
+EXPLANATION += " Also decided: the length stored for the next grow is the one just passed to set_len (else the next grow truncates stored bytes); no function of pocket-db builds slices from raw pointers or keeps a raw pointer in an atomic (a remembered base address dangles once the map moves)."
 ASSUMPTIONS = ["rustdoc's compile_fail verdict with an error code (nightly) is a faithful type-check"]
 
 WITNESSES = {
